@@ -419,6 +419,17 @@ def check_C03(ck):
             pe.append(O.show_f12(O.f12_pow(e0, (a * b) % R)))
         for c, (impl, _), want in zip(pc, ck.run(pc), pe):
             ck.expect(impl == want, "bilinear", c[1], impl, want, "e([a]P,[b]Q) = e(P,Q)^(ab) with [a]P from mul_assign, a up to 2^256-1")
+    # agreement with the textbook evaluation: an independent affine Miller loop over Fq12 on the untwisted point
+    # (oracle.ate_pairing; the theorem PP.Props.C03Lines.pairing_is_reduced_ate states the same for the model).
+    # P only needs to be a finite curve point, Q a finite twist point whose small multiples are non-zero.
+    tb = [(P, Qp, "subgroup") for (P, Qp) in (base[:2] if not thorough else base)] + [(g1.gen, g2.gen, "generators")]
+    tb.append((g1.full(rng), g2.sub_pt(rng), "P-outside-subgroup"))
+    tb.append((g1.sub_pt(rng), g2.full(rng), "Q-outside-subgroup"))
+    tb.append((g1.C.neg(g1.gen), g2.gen, "negated-P"))
+    tcases = [("textbook/" + cl, "pairing %s %s" % (g1.A(P), g2.A(Qp))) for (P, Qp, cl) in tb]
+    for c, (impl, _), (P, Qp, cl) in zip(tcases, ck.run(tcases), tb):
+        want = O.show_f12(O.ate_pairing(P, Qp))
+        ck.expect(impl == want, "textbook-ate:" + cl, c[1], impl, want, "pairing = conj(f_{|x|,Q}(P))^(3(q^12-1)/r), affine tangent/chord Miller loop over Fq12")
     # published value e(g1,g2): the repository's own relic vector (extracted on the fly from the test source)
     import re, os
     src = open(os.path.join(os.environ.get("PP_REPO", "/repo"), "src/bls12_381/tests/mod.rs")).read()
